@@ -45,12 +45,12 @@ def generate(ctx, rng):
         else:
             for part in range(4):
                 yield ("subst", L, part), {**base, "fault": "subst", "values": list(range(1 + part, 256, 4))}
-        yield ("multi", L), {**base, "fault": "multi", "n": 40 if quick else 15000, "mseed": rng.getrandbits(32)}
+        yield ("multi", L), {**base, "fault": "multi", "n": 40 if quick else 60000, "mseed": rng.getrandbits(32)}
         # every value of each byte of the start marker / length field, and a catalogue of 16-bit length values
         yield ("lenfield", L), {**base, "fault": "lenfield"}
         # bytes that follow an authentic packet in the same chunk (they are not covered by its signature)
         yield ("tail", L), {**base, "fault": "tail", "mseed": rng.getrandbits(32)}
-    n_wire = 300 if quick else 30000
+    n_wire = 300 if quick else 120000
     # the same decoder in an interpreter started with -O (assert statements compiled out): a configuration some deployments use
     yield ("optimized-interpreter",), {"frame": b"", "id": 1, "filler": {}, "fault": "optimized", "mseed": rng.getrandbits(32)}
     for j in range(n_wire):
